@@ -61,6 +61,7 @@ def run(ctx):
     shared.mapping_order_in_equality_rule(ctx, 'C08.t')
     shared.frozen_dataclass_eq_hash_rule(ctx, 'C08.u')
     shared.paired_sort_rule(ctx, 'C08.v')
+    shared.approximate_getter_follows_exact_rule(ctx, 'C08.w')
     ctx.decided += [
         'C08.a controlled() overrides that build a gate of another class pin (by a dominating equality test) every matrix-determining field they do not pass on',
         'C08.b _has_stabilizer_effect_ never answers True for an exponent at which the gate matrix is not Clifford (probe exponents, extracted eigen tables)',
